@@ -88,14 +88,16 @@ def handle (toks : List String) : String :=
       else s!"MODEL-SPEC-MISMATCH model={toHex r}"
     | _, _, _, _ => "bad-op"
   -- C04 bits <kind> <wrap> <buf> <off> <len>
-  | ["bits", kind, _wrap, b, off, len] =>
+  | ["bits", kind, wrap, b, off, len] =>
     match parseHex b, off.toNat?, len.toNat? with
     | some buf, some off, some len =>
       if off + len > 8 * buf.length then "ERR:oob" else
       let v := bytesToNat buf
-      -- a validity buffer without any null is dropped by `ArrayData` (`nulls()` is `None`), and
-      -- `write_array_data` then synthesises the all-valid bitmap
-      if kind = "nulls" ∧ (bitsOf v off len).all id then toHex (allValidBitmap len) else
+      -- a validity buffer without any null is dropped when the array is built (`nulls()` is
+      -- `None`) and `write_array_data` then synthesises the all-valid bitmap; `ArrayData::slice`
+      -- (the list-wrapped variant) keeps the parent's buffer even if the slice has no null
+      let considered := if wrap = "1" then bitsOf v 0 (8 * buf.length) else bitsOf v off len
+      if kind = "nulls" ∧ considered.all id then toHex (allValidBitmap len) else
       let r := bitSlice v off len
       let model := toHex (natToBytes r.2 r.1)
       if bitsOf r.1 0 len == bitsOf v off len then model else s!"MODEL-SPEC-MISMATCH model={model}"
